@@ -301,7 +301,7 @@ def cov_from_api(runs):
 API_CHECKS = {
     "C05": [("plain", "mut", "C05", 6, 8), ("plain", "loaded", "C05", 4, 6)],
     "C06": [("plain", "frames", "C06", 5, 7), ("plain", "c07", "C06", 5, 7), ("plain", "loaded", "C06", 4, 6)],
-    "C07": [("plain", "c07", "C07", 6, 9), ("plain", "loaded", "C07", 4, 6)],
+    "C07": [("plain", "c07", "C07", 6, 9), ("plain", "loaded", "C07", 4, 6), ("plain", "frames", "C07", 5, 6)],   # frames: caller-side frame objects that were edited / renamed before being handed over
     "C08": [("plain", "frames", "C08", 5, 7), ("plain", "loaded", "C08", 4, 6), ("plain", "wild", "C08", 4, 5)],
     "C09": [("plain", "params", "C09", 3, 4), ("plain", "loaded", "C09", 4, 6)],
     "C10": [("plain", "mut", "C10", 6, 8), ("plain", "c07", "C10", 6, 8), ("plain", "params", "C10", 3, 4), ("plain", "loaded", "C10", 4, 6), ("plain", "wild", "C10", 4, 6)],
